@@ -191,6 +191,12 @@ def run(run, ix, tier):
         sa, sb, ta, tb = o
         try:
             got = eval_contains(ix, cont, (sa, sb), (ta, tb), optable)
+        except Rerounded as e:
+            run.fail(Finding('F-R4', CTX_IV, 'ivmpf.__contains__', str(e),
+                             'the containment test is made with `%s`, a copy of an operand that unary plus / minus rounds '
+                             'OUTWARD to the current precision: an interval built at a higher precision is then tested '
+                             'as a wider one, and `in` is True for numbers outside it' % e, line=cont.lineno))
+            break
         except Unsupported as e:
             if any(f.rule == 'F-R3' for f in run.findings):
                 # an operator method the containment test relies on is already reported as not
@@ -290,6 +296,10 @@ class ComplexAsReal(Exception):
     pass
 
 
+class Rerounded(Exception):
+    """an operand of the comparison is replaced by a re-rounded copy (+x / -x / abs(x))"""
+
+
 def eval_contains(ix, fnode, s_iv, t_iv, optable, t_imag=None):
     """Evaluate `t in s` on one endpoint ordering.  t_imag=None: t is a real interval;
     'zero' / 'nonzero': t is a complex interval with real part t_iv and that imaginary part."""
@@ -348,6 +358,12 @@ def eval_contains(ix, fnode, s_iv, t_iv, optable, t_imag=None):
             if v is None or isinstance(v, bool):
                 return not v
             raise Unsupported('not of %r' % (v,))
+        if isinstance(e, ast.UnaryOp) and isinstance(e.op, (ast.UAdd, ast.USub)):
+            v = ev(e.operand)
+            if isinstance(v, tuple) and v and v[0] in ('iv', 'civ'):
+                # +x / -x of an interval is mpi_pos / mpi_neg at the CURRENT precision: a wider interval
+                raise Rerounded(norm(e))
+            raise Unsupported('unary operator on %r' % (v,))
         if isinstance(e, ast.Compare) and len(e.ops) == 1:
             a = ev(e.left)
             b = ev(e.comparators[0])
